@@ -333,6 +333,11 @@ def apply(mid: str, m: dict, i: int):
     if mid == "label_with_control_character":
         r["label"] = "bad \x01 char"
         return []
+    if mid == "bg_geopoint_ambiguous_trigger":
+        S.extend([dict(type="begin group", name="bgg1", label="a"), dict(type="text", name="twice", label="x"), dict(type="end group"),
+                  dict(type="begin group", name="bgg2", label="a"), dict(type="text", name="twice", label="x"), dict(type="end group"),
+                  dict(type="background-geopoint", name="bgp", trigger="${twice}")])
+        return ["twice"]
     if mid == "loop_without_list":
         S.extend([dict(type="begin loop", name="lp", label="LP"), dict(type="text", name="lq", label="x"), dict(type="end loop")])
         return []
